@@ -607,9 +607,11 @@ func TestVerifC20(t *testing.T) {
 			continue
 		}
 		// distinct instants (ms) so that the order of scripted events is the order of their instants
+		// ... on a time scale of milliseconds, seconds or minutes (a task that takes 40 min to stop is waited for)
+		scale := verifh.Pick(sr, []int64{1, 1, 1000, 60000})
 		pool := make([]int64, 60)
 		for k := range pool {
-			pool[k] = int64(k+1) * c20ms
+			pool[k] = int64(k+1) * c20ms * scale
 		}
 		verifh.Shuffle(sr, pool)
 		next := func() int64 { v := pool[0]; pool = pool[1:]; return v }
@@ -639,7 +641,8 @@ func TestVerifC20(t *testing.T) {
 		}
 		sort.Slice(sigs, func(a, b int) bool { return sigs[a].At < sigs[b].At })
 		// every run ends: a last signal long after everything else
-		sigs = append(sigs, c20Sig{At: 1800 * 1000 * c20ms, Sig: verifh.Pick(sr, []string{"INT", "TERM", "HUP"})})
+		sigs = append(sigs, c20Sig{At: 1800 * 1000 * c20ms * scale, Sig: verifh.Pick(sr, []string{"INT", "TERM", "HUP"})})
+		tags = append(tags, fmt.Sprintf("scale:%dms", scale))
 		c20EmitServe(t, out, id, scripts, sigs, verifh.Pick(sr, []string{"", "", "", "from-signal", "from-signal", "always"}), tags)
 	}
 
